@@ -46,15 +46,15 @@ def _search(pid, rule, quick_bounds, thorough_bounds, quick_random, thorough_ran
         "id": pid, "cmd": "search", "level": "exploration",
         "rule": rule,
         "shards": {"quick": 16, "thorough": 16},
-        "args": {"quick": ["--bounds", quick_bounds, "--random", str(quick_random)],
-                 "thorough": ["--bounds", thorough_bounds, "--random", str(thorough_random)]},
+        "args": {"quick": ["--bounds", quick_bounds, "--random", str(quick_random), "--large", "400"],
+                 "thorough": ["--bounds", thorough_bounds, "--random", str(thorough_random), "--large", "6000"]},
         "exhaustive": {"quick": True, "thorough": True},
         "require": {"any": ["enumerations_completed", "graphs_with_selfloop", "graphs_with_parallel_edges", "random_graphs"] + require},
         "assumptions": SEARCH_ASSUME,
         "timeout": {"quick": 400, "thorough": 3000},
     }
 
-ENUM = "graphs are enumerated as insertion sequences (every multigraph with self-loops and parallel edges, every insertion order) within the node/edge bounds given in counters, x every root (x every target != root) x every subset of rejected edge ids plus sampled direction-dependent predicates; seeded random graphs of 3..40 nodes from six families (sparse, dense, dag, cycle-with-chords, disconnected, star-with-parallel) with sampled roots/targets/filters. distinct = distinct (flavour, graph, priorities, root/target/filter configuration) with at least one edge."
+ENUM = "graphs are enumerated as insertion sequences (every multigraph with self-loops and parallel edges, every insertion order) within the node/edge bounds given in counters, x every root (x every target != root) x every subset of rejected edge ids plus sampled direction-dependent predicates; seeded random graphs of 3..40 nodes from six families (sparse, dense, dag, cycle-with-chords, disconnected, star-with-parallel) with sampled roots/targets/filters and node values from a small (ties) or a wide range; large structured graphs of 40..3000 nodes from seven families (long chain + gadget, ring, grid, wide star + cycle, deep tree + cross edges, corridor with loops, fan with sibling chain) with a few roots/targets each. distinct = distinct (flavour, graph, priorities, root/target/filter configuration) with at least one edge."
 
 PROPS.update({
     "C04": _search("C04", "bfs().target(t).search_path()/search() against model BFS distances on the accepted sub-graph: presence iff reachable, path starts at root, ends at target, chained existing accepted edges, length = model distance, search() agrees, Path accessors agree with each other. " + ENUM, "3:4,4:3", "3:5,4:4", 3000, 30000, ["unreachable_targets", "filter_disconnects_target", "paths_len_ge2"]),
